@@ -4,6 +4,7 @@ import NitroVerif.Driver.Table
 import NitroVerif.Driver.Barrier
 import NitroVerif.Driver.RefCount
 import NitroVerif.Driver.SkipConc
+import NitroVerif.Driver.SkipSeq
 import NitroVerif.Driver.Mvcc
 import NitroVerif.Driver.Backup
 import NitroVerif.Driver.MvccBackup
@@ -17,6 +18,7 @@ def engineByName (name : String) : Option Engine :=
   | "barrier" => some barrierEngine
   | "refcount" => some refcountEngine
   | "skipconc" => some skipConcEngine
+  | "skipseq" => some skipSeqEngine
   | "mvcc" => some mvccBkEngine
   | "backupimg" => some backupImgEngine
   | _ => none
